@@ -19,7 +19,7 @@ ID = "C17"
 LEVEL = "model_checking"
 
 PREFIXES = ["", "a", "b", "ns1"]
-NS = {"N1": "http://ex.org/", "N2": "http://ex.org/x/", "N3": "http://ex.org/x#", "N4": "http://other.org/"}
+NS = {"N0": "", "N1": "http://ex.org/", "N2": "http://ex.org/x/", "N3": "http://ex.org/x#", "N4": "http://other.org/"}
 IRIS = {"u1": NS["N1"] + "y", "u2": NS["N2"] + "y", "u3": NS["N3"] + "y", "u4": NS["N4"] + "y", "u5": NS["N1"] + "1y"}
 COMPACT = ["qname", "curie", "cq_nogen", "cq_strict", "n3", "normalizeUri"]
 DOCS = {
